@@ -51,6 +51,14 @@ def run(ctx: Ctx):
                         "correctness of the alignments computed by the jobs (C01/C02/C10/C11)"]
     ctx.assumptions += ["ThreadPoolExecutor runs every submitted job to completion; .result() returns the job's return value"]
     M = ctx.model
+    # "each the same kind of alignment of a freshly sampled continuum whose annotators come from the ground-truth annotators": the structural
+    # rules of the two samplers on where a sample's annotators and units come from are part of this property too
+    from .c15 import rule_generation as _stat_generation
+    from .c16 import rule_sample as _shuffle_sample
+    ctx.clauses.append("R-C15-1 / R-C16-2 / R-C16-3 (shared with C15, C16) both samplers build a sample on copy_flush() of the reference, one annotator per ground-truth "
+                       "annotator, units taken from annotators drawn among the ground-truth annotators")
+    _stat_generation(ctx)
+    _shuffle_sample(ctx)
     f = ctx.fn(CG, "R-C05-1")
     sn = f.self_name
     cfg = CFG(f.node)
